@@ -219,7 +219,8 @@ func cmdYield(args []string) {
 				}
 				if mentions(st) {
 					site++
-					sp = append(sp, splice{off(st.Pos()), off(st.Pos()), fmt.Sprintf("zzsched.Yield(%d); ", site)})
+					// sites at package-level variable accesses are numbered from 1000000 (simsched.GlobalSiteBase)
+					sp = append(sp, splice{off(st.Pos()), off(st.Pos()), fmt.Sprintf("zzsched.Yield(%d); ", 1000000+site)})
 				}
 			}
 		}
